@@ -562,7 +562,11 @@ def run(ck):
                "deduplicated, sampled round-robin over shape classes, crossed with seeded run attributes (clock sys/tsc, gate "
                "none/hold/slow, turn/free threads, soft limit, backend sleep, wait_for_queues_to_empty_before_exit true/false "
                "(false for every 2nd SIGINT/SIGTERM, 3rd fatal, 5th stop/exit scenario, the signal ones with a held/slow "
-               "backend), signal flavour raise/fault/pthread_kill/kill); "
+               "backend), SignalHandlerOptions::logger none / existing / a name no logger has (signal scenarios, in turn), "
+               "queue exercise for stop/exit scenarios in which a thread logs >= 2 statements the stop must drain (padded "
+               "statements that make the producer move to a larger node / the thread shrinks its queue before each later "
+               "statement; hard limit 1 or default limits; backend held or asleep 20 ms), "
+               "signal flavour raise/fault/pthread_kill/kill); "
                "non-trivial = a backend was started and at least one log call returned before the stop/exit/signal request "
                "(and, with wait=false, the ending is a signal); "
                "distinct by (program, attributes)")
@@ -585,6 +589,10 @@ def run(ck):
         "destruction is a user-program race; concurrent logging is exercised against stop() and fatal signals",
         "the model abstracts timestamps (backend may pick any non-empty transit buffer) and reads all queues in one step",
         "x86-64 Linux, glibc signal() semantics; TSC clock only in ~8% of the children (50 ms calibration each)",
+        "every child uses FrontendOptions with initial_queue_capacity 4096 (unbounded blocking queue) so that node growth and "
+        "shrink are within reach of <= 3 statements; a configured signal-handler logger name that no logger has is "
+        "covered as 'never created' (not as removed and re-created)",
+        "a handled signal after which the process is still alive ends the child with status 42 (judged by the contract)",
     ]
     # 1. design level (independent of /repo; C07_ONLY_REAL=1 skips it while trying seeded changes of the code)
     if os.environ.get("C07_ONLY_REAL") != "1":
